@@ -60,6 +60,14 @@ def akai_sites(case: Dict[str, Any]) -> List[Site]:
                 sites.append(Site(f"p{pi}.vol{vi}.file{fi}.size", P(17, 3), 3, [0, 1, 139, 140, 141, 8192, 0xFFFFFF]))
                 sites.append(Site(f"p{pi}.vol{vi}.file{fi}.start", P(20, 2), 2, uniq([0, 1] + used + [nsect, 11386, 65535])))
                 hb = base + f["chain"][0] * S
+                if f["ftype"] in (0x70, 0xF0):          # program: keygroup count, chain addresses, zone count
+                    for lay, at, nm, vals in (("akai_program_header", 0, "number_of_keygroups", [0, 2, 7, 255]),
+                                              ("akai_program_header", 0, "first_keygroup_address", [0, 1, 71, 72, 149, 151, 5000, 65535]),
+                                              ("akai_keygroup_head", 150, "next_keygroup_address", [1, 149, 150, 151, 300, 8000, 65535]),
+                                              ("akai_keygroup_head", 150, "num_velocity_zones", [0, 1, 5, 255])):
+                        fl = field(lay, nm)
+                        sites.append(Site(f"p{pi}.vol{vi}.file{fi}.prog.{nm}", [hb + at + fl["off"] + k for k in range(fl["width"])], fl["width"], vals))
+                    continue
                 for nm, vals in (("id", [0, 2, 255]), ("loop_type", [0, 1, 5, 255]), ("samples_cnt", [0, 1, 2 ** 31, 2 ** 32 - 1]),
                                  ("play_start", [1, 2 ** 31, 2 ** 32 - 1]), ("play_end", [0, 1, 2 ** 32 - 1]), ("sampling_rate", [0, 1, 65535]),
                                  ("note_pitch", [0, 20, 255])):
